@@ -62,8 +62,20 @@ def run(chk):
 
     W.gradient_obligations(chk, P, rule="C01.G")
 
+    # D: "the force is minus the derivative of that same energy function": whenever a potential function the package itself
+    # builds for a model (forms, sum/product/pow, trans, multi-range, splines) offers an analytic .deriv, gradient() uses it,
+    # so it has to be the derivative of the value that lands in the energy column (the rule groups of C07, evaluated here)
+    from ..report import RuleView
+    from . import c07
+    chk.rule("C01.D", "analytic derivatives offered by package-built potential functions are d/dr of their value", 60)
+    view = RuleView(chk, "C01.D")
+    for label, fn in (("D/forms", c07.builtin_forms), ("D/combinators", c07.combinators), ("D/combinators-all", c07.combinators_all_presences),
+                      ("D/trans", c07.trans), ("D/multirange", c07.multirange), ("D/splines", lambda c, p: c07.splines(c, p, "C07.O6"))):
+        chk.attempt(label, lambda fn=fn: fn(view, P))
+
     chk.info["call_sites_resolved"] = calls + I2.call_sites
     chk.info["functions_inlined"] = sorted(I.inlined | I2.inlined)
+    W.path_state_rule(chk, P, "C01.S", "LAMMPS write and build path")
     chk.assume("floating-point rounding of r and of the printed %.8f fields is not decided")
     chk.assume("a user callable's own .deriv is the derivative of its value (decided for the repository's forms by C07)")
     chk.assume("accuracy of the central-difference fallback beyond the step-size bound G6 is not decided")
